@@ -62,6 +62,10 @@ CLAIMS = {
             "regenerated from the source each run - must raise one of the listed spec errors (never be accepted, never an internal "
             "error), for every value of the symbolic payload; (b) at 28 spec positions every payload skeleton with symbolic atoms is "
             "accepted or rejected with a listed error", "3 C19"),
+    "C11": ("for each leaf of the meaningful DSL x argument kind (JSON-like, types, data paths, path-like literal mappings) and nested "
+            "combinations: the serialised form is structurally pure JSON, the rebuilt condition equals the original, re-serialisation "
+            "is identical and both filter / validate identically, for every value of the symbolic atoms; real json.dumps/loads on the "
+            "concrete witness of each case", "3 C11"),
     "C14": ("equality laws (reflexive/symmetric/transitive, rebuilt and commuted copies equal) and 'equal implies same "
             "behaviour' decided for every value of the differing atom (key, index, argument, label) and of the probe "
             "document's leaves, per term kind", "3 C14"),
